@@ -58,7 +58,7 @@ def run(case):
     violations = []
     fired = 0
     vals = {}
-    for cfg in ac.CONFIGS:
+    for cfg in ac.configs_for(case):
         name = ac.config_name(cfg)
         al, err, flt = ac.call_under(cfg, lambda: continuum.get_best_soft_alignment(dissim))
         if cfg["mode"] != "none":
